@@ -1,6 +1,6 @@
 (* C07 Props: MapReduce - exactly-once processing, bounded workers, result table, termination.
-   Model.v is the LTS of lib/mr/mapreduce.go (at /repo 1af3580: buffered one-shot panic channel d413f58 + re-check of
-   it in the output arm); a schedule is an ARBITRARY list of labels, `reachable cf s` quantifies over all schedules,
+   Model.v is the LTS of lib/mr/mapreduce.go (at /repo e753473: buffered one-shot panic channel d413f58, re-check of
+   it in the output arm 1af3580 and after the deferred range over output e753473); a schedule is an ARBITRARY list of labels, `reachable cf s` quantifies over all schedules,
    item lists, worker counts and behaviour scripts (cfg).  Ghost fields: `ws` (one entry per spawned mapper = item
    passed to the mapper), `drained` (items eaten by drain(source)), `written` (every writer.Write of a mapper),
    `dropped` (discarded by guardedWriter), `recvd` (received by the reducer function), `cdrained` (eaten by the
@@ -8,11 +8,10 @@
 
    Proved for all schedules: conservation / at-most-once / exactly-once (clean), worker bound, first cancel wins,
    outcome soundness, the clean result table, cancel => that error (non-writing reducers), panic recorded => re-raised
-   (unless a reducer value was already handed over), a measure decreasing on every step, and - since the repairs -
+   (also after the reducer's value was handed over; only a second reducer write pre-empts it), a measure decreasing on every step, and - since the repairs -
    stuck-freedom / termination / no goroutine left for EVERY configuration with workers >= 1, no mapper that waits
    for the call's return, and at most two reducer writes (cancels, panics, context cancellation included).
-   Still false of the code (witnesses, `_refuted`): a panic raised after the reducer's value was handed over is
-   dropped; guardedWriter's check-then-send races with finish() ("send on closed channel" re-raised); ctx done =>
+   Still false of the code (witnesses, `_refuted`): guardedWriter's check-then-send races with finish() ("send on closed channel" re-raised); ctx done =>
    DeadlineExceeded fails when the select also sees the closed output; a third reducer write blocks for ever. *)
 From Coq Require Import Permutation.
 From God Require Import Base.Prelude C07.Model C07.ProofsA C07.ProofsB C07.ProofsC C07.ProofsD C07.ProofsE C07.ProofsF C07.Proofs C07.Spec C07.Tests.
@@ -127,18 +126,25 @@ Proof. exact run_length_bounded. Qed.
 Print Assumptions c07_schedules_bounded.
 
 (* ---- a panic is re-raised in the calling goroutine: without cancel and ctx, once a panic has been recorded
-   (generator, mapper or reducer; onceChan's CAS) the call never ends with ErrReduceNoOutput or an error: it
-   re-raises the recorded panic - unless the reducer's value had been handed to the caller before (then that value,
-   or the written-twice panic; see c07_write_then_panic_refuted).  With a reducer that writes nothing: always. ---- *)
+   (generator, mapper or reducer; onceChan's CAS) the call ends by re-raising exactly that panic - also when the
+   reducer's value had already been handed over (e753473) - with one exception: a second reducer write makes the
+   deferred loop panic "written twice" before the re-check (two clauses of the property collide;
+   c07_twice_wins_over_panic).  With at most one reducer write: always the recorded panic. ---- *)
 Theorem c07_panic_reraise : forall cf s o, reachable cf s -> ctxd s = false -> conce s = ONone -> wrote s = true ->
-  c s = CDone o -> (exists p, o = OPanic p /\ fpanic s = Some p) \/ (exists k, o = ORet k) \/ o = OPanicTwice.
+  c s = CDone o -> (exists p, o = OPanic p /\ fpanic s = Some p) \/ o = OPanicTwice.
 Proof. exact panic_reraise. Qed.
 Print Assumptions c07_panic_reraise.
 
-Theorem c07_panic_reraise_nowrite : forall cf s o, reachable cf s -> ctxd s = false -> conce s = ONone ->
-  wrote s = true -> c s = CDone o -> writes (rafter cf) = [] -> exists p, o = OPanic p /\ fpanic s = Some p.
-Proof. exact panic_reraise_nowrite. Qed.
-Print Assumptions c07_panic_reraise_nowrite.
+Theorem c07_panic_reraise_one_write : forall cf s o, reachable cf s -> ctxd s = false -> conce s = ONone ->
+  wrote s = true -> c s = CDone o -> List.length (writes (rafter cf)) <= 1 -> exists p, o = OPanic p /\ fpanic s = Some p.
+Proof. exact panic_reraise_le1. Qed.
+Print Assumptions c07_panic_reraise_one_write.
+
+(* the exception is real: reducer writes twice, then panics with 9: the caller panics "written twice" *)
+Example c07_twice_wins_over_panic : exists cf ls s,
+  run cf (init cf) ls = Some s /\ final s = true /\
+  c s = CDone OPanicTwice /\ fpanic s = Some (PUser 9) /\ ctxd s = false /\ conce s = ONone.
+Proof. destruct w7_twice_wins_over_panic as [s H]. exists cf_w7, sched_w7, s. exact H. Qed.
 
 (* ---- in every case the call returns, and no goroutine is left: EVERY reachable non-final state of EVERY
    configuration with workers >= 1, no mapper waiting for the call's return (AWaitRet) and at most two reducer
@@ -175,15 +181,6 @@ Proof. exact clean_family_spec. Qed.
 Print Assumptions c07_clean_spec.
 
 (* ---- clauses that are still false of the code as modelled: computed witnesses ---- *)
-(* "a panic in ... the reducer is re-raised": not if it is raised after the reducer's value was handed over: the call
-   returns 7, the panic (9) stays in the buffer.  Replayed on the Go code (corpus/C07/reducer_write_then_panic.json;
-   known finding reducer_write_then_panic). *)
-Theorem c07_write_then_panic_refuted : exists cf ls s,
-  run cf (init cf) ls = Some s /\ final s = true /\
-  c s = CDone (ORet 7) /\ fpanic s = Some (PUser 9) /\ ctxd s = false /\ conce s = ONone.
-Proof. destruct w2_write_then_panic_dropped as [s H]. exists cf_w2, sched_w2, s. exact H. Qed.
-Print Assumptions c07_write_then_panic_refuted.
-
 (* guardedWriter's check-then-send is not atomic: finish() between the two makes the reducer's send panic ("send on
    closed channel"), and the caller may re-raise that runtime panic instead of returning the cancel error 5.
    Observed on the Go code before the repairs by stress: 13 of 30000 runs (known finding send_on_closed). *)
